@@ -1,12 +1,29 @@
 (* C13 - Hittability and note timing follow the warp rules exactly.  Statements only.
-   PARTIAL: the note-timing rule, order preservation and "a fake differs from the tap in nothing but the
-   type" are theorems; that hittable() coincides with "inside the warp union and no pause on that beat"
-   is established by the correspondence check against the independent rule on every tick around every
-   event (DESIGN.md, C13) - the segment invariants it rests on are C11_warp_segments / C11_events_sorted. *)
+   Both clauses are theorems: C13_hittable_iff (for every timing data of the domain and every
+   non-negative beat, through the model of bisect, the merged event list and the warp coalescing) and
+   the note-timing rule / order / fake-differs-in-type-only.  The times themselves are exact rationals
+   in the model; the binary64 gap of the implementation is measured by the correspondence (1e-9 s). *)
 From Coq Require Import List ZArith NArith QArith Bool.
-From SV Require Import Sx Beat Notes Engine Generated.Tables Proofs.EngineFacts.
+From SV Require Import Sx Beat Notes Engine Generated.Tables Proofs.EngineFacts Proofs.Hittable.
 Import ListNotations.
 Open Scope Q_scope.
+
+(* A beat is reported unhittable exactly when it lies inside the union of the raw warp segments
+   [s, s + length) (start included, end excluded; lengths rounded to the tick as the code does) and no stop
+   or delay sits on that same beat.  For every timing data of the domain: any coincidence of events. *)
+Theorem C13_hittable_iff : forall td v0 b,
+  dom td -> (exists rest, td_bpms td = (0, v0) :: rest) -> 0 <= b ->
+  let s0 := init_state td v0 in
+  let sts := run_states s0 (events td) in
+  hittable sts s0 b = false <-> (in_raw (td_warps td) b /\ ~ pause_on td b).
+Proof. exact hittable_iff. Qed.
+Print Assumptions C13_hittable_iff.
+
+(* the state list the theorem speaks about is the one the engine builds *)
+Theorem C13_states_are_run_states : forall td v0 rest, td_bpms td = (0, v0) :: rest ->
+  states td = EOk (run_states (init_state td v0) (events td)).
+Proof. intros td v0 rest H. unfold states. rewrite H. reflexivity. Qed.
+Print Assumptions C13_states_are_run_states.
 
 (* each note is timed on its own, at the time of its beat, by the stated rule *)
 Theorem C13_time_notes_rule : forall opt sts d n,
